@@ -175,6 +175,7 @@ func VerifC02Expand() {
 	ts := vNewTS()
 	h := rt.IntRange(0, rt.Param("H", 2))
 	last := map[string]string{}
+	display := rt.Bool()
 	for i := 0; i < h; i++ {
 		k := vKeys[rt.IntRange(0, len(vKeys)-1)]
 		v := rt.String(rt.IntRange(0, rt.Param("VL", 2)))
@@ -182,11 +183,17 @@ func VerifC02Expand() {
 			rt.Assume(v[j] != '\n')
 			rt.Assume(v[j] != 0)
 		}
-		// assign through the real env builtin half of the time
-		if rt.Bool() {
+		// assign directly, through the real env builtin, or through env
+		// with a display-only argument (a bare name) before the assignment
+		// (one choice per history)
+		switch {
+		case rt.Bool():
 			ts.Setenv(k, v)
-		} else {
+		case !display:
 			ts.cmdEnv(false, []string{k + "=" + v})
+		default:
+			ts.cmdEnv(false, []string{"B", k + "=" + v})
+			rt.Reach("display-then-assign")
 		}
 		last[k] = v
 	}
